@@ -6,7 +6,7 @@ from .. import lean, proto, gen, util
 REQUIRED = ['Petl.C12.' + n for n in (
     'transforms_one_row_per_row cut_cells cut_cutout_cover stack_pads_trims annex_pads addfield_frame addrownumbers_frame '
     'movefield_is_a_permutation movefield_cells addcolumn_frame convert_frame header_functions_keep_data filldown_frame fillright_frame accessors_pad '
-    'asindices_index_priority asindices_names_left_to_right pyInsert_spec cat_aligns_by_name').split()]
+    'rename_pointwise asindices_index_priority asindices_names_left_to_right pyInsert_spec cat_aligns_by_name').split()]
 
 CELLS = [None, 1, 2, 2.5, 'a', 'b', '', True, (1, 'a'), b'x', 'NA', -999, 0]
 
